@@ -39,7 +39,7 @@ ASSUMPTIONS = [
 STRIDE = {'quick': 10, 'thorough': 1}
 TIME = {'quick': 80, 'thorough': 560}
 CASES = {'quick': 0, 'thorough': 0}
-MIN_NONTRIVIAL = {'quick': 20000, 'thorough': 30000}
+MIN_NONTRIVIAL = {'quick': 15000, 'thorough': 25000}
 EXHAUSTIVE = {'quick': False, 'thorough': True}
 REQUIRED = ('hands_enumerated', 'classes_tabled', 'operator_pairs',
             'rejections_checked', 'equal_rank_pairs', 'accepted', 'refused')
